@@ -1,6 +1,7 @@
 package main
 
 import (
+	"encoding/json"
 	"bytes"
 	"fmt"
 	"go/ast"
@@ -30,6 +31,38 @@ func repoDir() string {
 		return d
 	}
 	return "/repo"
+}
+
+// repoDirC: where the C and DDP library sources are read from (a scratch copy when a recorded breaking change is replayed).
+func repoDirC() string {
+	if d := os.Getenv("VERIF_C_REPO"); d != "" {
+		return d
+	}
+	return repoDir()
+}
+
+// loadOverlay: VERIF_OVERLAY names a JSON object {"<file under the repo>": "<file with the replacement text>"}; the Go
+// sources are then loaded from the repository with those files replaced (go/packages overlay), which keeps the build cache warm.
+func loadOverlay() map[string][]byte {
+	f := os.Getenv("VERIF_OVERLAY")
+	if f == "" {
+		return nil
+	}
+	b, err := os.ReadFile(f)
+	if err != nil {
+		return nil
+	}
+	m := map[string]string{}
+	if json.Unmarshal(b, &m) != nil {
+		return nil
+	}
+	out := map[string][]byte{}
+	for orig, repl := range m {
+		if c, err := os.ReadFile(repl); err == nil {
+			out[orig] = c
+		}
+	}
+	return out
 }
 
 type FuncInfo struct {
@@ -78,7 +111,7 @@ func Load() (*Loaded, error) {
 		out = append(out, "GOOS="+g)
 	}
 	L.Fset = token.NewFileSet()
-	cfgp := &packages.Config{Mode: packages.LoadAllSyntax, Dir: repoDir(), Env: out, Fset: L.Fset, Tests: false}
+	cfgp := &packages.Config{Mode: packages.LoadAllSyntax, Dir: repoDir(), Env: out, Fset: L.Fset, Tests: false, Overlay: loadOverlay()}
 	pkgs, err := packages.Load(cfgp, "./src/...", "./cmd/...")
 	if err != nil {
 		return nil, err
